@@ -241,3 +241,14 @@ Example ex_list_history :
   val_of_slots T_LIST T_I32 0 (fold_left aslots_step [OSet (KIndex 1) (VI32 7); OClear (KIndex 0); OSet (KIndex 0) (VI32 9)]
                                  (init_slots (VList T_I32 [VI32 1; VI32 2; VI32 3]))) = Some (VList T_I32 [VI32 9; VI32 7; VI32 3]).
 Proof. vm_compute. reflexivity. Qed.
+
+(* ================================================================== (G) the probing loop from the Go source *)
+(* thrift/generic/path.go seekIntHash is translated from the Go text on every build (gen/Gen_domhash.v): the counted loop with break is a
+   structural recursion whose fuel is the iteration bound N, the slot read through rt.IndexPtr a function-valued atom (slot index ->
+   Path.t).  On a table of N existing slots it returns exactly the slot of the simulation's seek_idx (ThriftDomSim.v), for every key. *)
+From DG Require Gen_domhash GenDomhashProofs.
+Theorem C05_seekIntHash_from_source :
+  forall arr key N, 0 < N < 2 ^ 62 -> N <= Z.of_nat (length arr) -> 0 <= key < 2 ^ 64 ->
+  ThriftDomSim.seek_idx (Z.to_nat N) arr N (key mod N) = ThriftDomSim.ROk (Gen_domhash.seekIntHash (GenDomhashProofs.tbl arr) key N).
+Proof. exact GenDomhashProofs.seekIntHash_is_seek_idx. Qed.
+Print Assumptions C05_seekIntHash_from_source.
